@@ -15,7 +15,7 @@ from .tlaval import parse_state
 def protocols(run):
     res = T.run_tlc("Reload", T.cfg(constants={"LoadDrops": "TRUE", "ConvertDrops": "TRUE"}, invariants=["TypeOK", "ReloadPreservesFunction", "LoadInvalidates"]), dump=True, name="reload", workers=4)
     run.model_must_hold(res, "Reload")
-    run.add_tlc(res, "Reload (loading drops derived state)", require_actions=["Train", "UseSrc", "BuildDst", "EvalFirst", "DoUseDst", "DoLoad", "Retrain", "DoUseLoaded", "Convert", "Compare"])
+    run.add_tlc(res, "Reload (loading drops derived state)", require_actions=["Train", "UseSrc", "FrozenPhase", "BuildDst", "EvalFirst", "DoUseDst", "DoLoad", "Retrain", "DoUseLoaded", "Convert", "Compare"])
     for label, consts in (("derived state kept across load_state_dict", {"LoadDrops": "FALSE", "ConvertDrops": "TRUE"}), ("derived tensors neither converted nor dropped by .double()", {"LoadDrops": "TRUE", "ConvertDrops": "FALSE"})):
         bad = T.run_tlc("Reload", T.cfg(constants=consts, invariants=["ReloadPreservesFunction"]), coverage=False, name="reload_broken", workers=4)
         if bad.ok:
@@ -81,12 +81,28 @@ def run_protocol(torch, e, proto, seed):
     src = e.build(seed)
     if "trained" in proto["src"] or e.has("needs_init"):
         zoo.prepare(e, src, seed)
+    if "frozen_phase" in proto["src"]:
+        # frozen, used in training mode, released (the parameter changes of "trained" come afterwards)
+        src.train()
+        for p in src.parameters():
+            p.requires_grad_(False)
+        with torch.no_grad():
+            for op in _ops(e)[:2]:
+                try:
+                    _call(torch, src, e, op, x, y, c, c1)
+                except Exception:  # noqa
+                    pass
+        for p in src.parameters():
+            p.requires_grad_(True)
     if "trained" in proto["src"]:
         g = torch.Generator().manual_seed(seed + 9)
         with torch.no_grad():
             for p in src.parameters():
                 if p.requires_grad:
                     p.add_(0.05 * torch.randn(p.shape, generator=g).to(p.dtype))
+    if "frozen_phase" in proto["src"] and "trained" in proto["src"]:
+        for p in src.parameters():
+            p.requires_grad_(False)      # frozen again when it is saved and evaluated (no train() call in between)
     src.eval()
     if "used" in proto["src"]:
         probe(torch, src, e, data)
@@ -122,9 +138,12 @@ def run_protocol(torch, e, proto, seed):
     # the source starts from empty caches and then makes the same evaluation-mode calls as the loaded model, so
     # that on a correct tree both fill their caches along the same sequence of calls (a cached logabsdet that
     # was computed together with the inverse may differ in the last bit from one computed with the weight)
-    for mod in src.modules():
-        if isinstance(mod, Linear):
-            mod.cache.invalidate()
+    # (not after a frozen phase alone: training-mode use derives nothing that could be left, so the source is
+    # probed exactly as its history left it)
+    if "used" in proto["src"] or "frozen_phase" not in proto["src"]:
+        for mod in src.modules():
+            if isinstance(mod, Linear):
+                mod.cache.invalidate()
     for k in proto.get("used_after", []):
         ops = _ops(e)
         op = ops[0] if k == "fwd" else ("inverse" if "inverse" in ops else ("sample" if "sample" in ops else ops[0]))
